@@ -147,7 +147,8 @@ def results_doc(repo, fmt):
                 and len(e.target.params) >= 2:
             # ... and whose result is printed: it occurs in the result text (a helper used only in a test, or inside the
             # stability check, is not a statistic)
-            printed = isinstance(e.ret, tuple) and contains(full_terms[0], lambda x: x == e.ret)
+            printed = isinstance(e.ret, tuple) and contains(full_terms[0], lambda x: x == e.ret) \
+                and not contains(e.args[0], lambda x: x[0] == 'const' and isinstance(x[1], str) and len(x[1]) > 1)      # (a helper fed with text lines assembles the text)
             if printed and not any(c.kind == 'call' and c.target.cls == 'Model' and c.target.name.startswith('_') and c.target.name not in not_stat for c, br in ctx):
                 args.append((e.target.name, e.args[0]))
     return f, full[0], args
